@@ -1,6 +1,8 @@
 package main
 
 import (
+	"go/ast"
+	"go/types"
 	"flag"
 	"fmt"
 	"os"
@@ -93,6 +95,93 @@ func doDump(w *World, what string) {
 				}
 			}
 		}
+	case what == "wbf":
+		a := newWBF(w)
+		for _, t := range precompileTable(w) {
+			done := map[*types.Func]bool{}
+			for _, m := range t.Methods {
+				if !m.IsTx || !m.Swallow || done[m.HandlerObj] {
+					continue
+				}
+				done[m.HandlerObj] = true
+				fmt.Printf("== %s.%s (%s)\n", t.Name, m.ABIName, m.HandlerObj.Name())
+				for _, p := range a.After(m.HandlerObj) {
+					fmt.Println("   ", p.String())
+				}
+			}
+		}
+	case what == "blockloops":
+		br := blockReachable(w)
+		var names []string
+		for f := range br {
+			names = append(names, funcID(f))
+		}
+		sort.Strings(names)
+		fmt.Println(len(names), "block-reachable source functions")
+		for f := range br {
+			v := w.ViewOf(f)
+			if v == nil {
+				continue
+			}
+			ast.Inspect(v.Decl.Body, func(n ast.Node) bool {
+				var body *ast.BlockStmt
+				switch x := n.(type) {
+				case *ast.ForStmt:
+					body = x.Body
+				case *ast.RangeStmt:
+					body = x.Body
+				default:
+					return true
+				}
+				var ws, fs []string
+				for _, c := range allCalls(body) {
+					if v.innermostLoop(c) != n {
+						continue
+					}
+					if v.callWrites(c) {
+						ws = append(ws, fmt.Sprintf("%s@%s", exprString(c.Fun), v.pos(c)))
+					}
+					if lastResultIsError(v, c) {
+						k, _ := v.failArm(c)
+						fs = append(fs, fmt.Sprintf("%s:%s", exprString(c.Fun), k))
+					}
+				}
+				if len(ws) > 0 {
+					fmt.Printf("%s loop@%s\n   writes=%v\n   fallible=%v\n", funcID(f), v.pos(n), ws, fs)
+				}
+				return true
+			})
+		}
+	case what == "blockswallow":
+		br := blockReachable(w)
+		a := newWBF(w)
+		n := 0
+		for f := range br {
+			v := w.ViewOf(f)
+			if v == nil || strings.HasPrefix(funcID(f), "x/appchain") {
+				continue
+			}
+			for _, c := range allCalls(v.Decl.Body) {
+				if !lastResultIsError(v, c) {
+					continue
+				}
+				k, _ := v.failArm(c)
+				if k == "return" || k == "panic" {
+					continue
+				}
+				for _, t := range v.targetsOf(c) {
+					fo, _ := t.Object().(*types.Func)
+					if fo == nil {
+						continue
+					}
+					for _, p := range a.After(fo) {
+						n++
+						fmt.Printf("%s swallows(%s) %s @%s :: %s\n", funcID(f), k, fo.Name(), v.pos(c), p.String())
+					}
+				}
+			}
+		}
+		fmt.Println(n, "pairs")
 	case what == "entries":
 		c := catalogue(w)
 		c.print(w)
